@@ -26,7 +26,7 @@ def allSomeVals : List (Option Val) → Option (List Val)
   | some a :: r => (allSomeVals r).map (a :: ·)
 
 /-- commands (values in wire format; answers are `|`-separated):
-    `c12p d p`          find-path Impl | Spec | Spec with `_id` last | reasons | caller's dict afterwards
+    `c12p d p`          find-path Impl | Spec | Spec with `_id` last | reasons
     `c12f f p d1 … dn`  `list(find(f, p))` | `list(find(f))`
     `c12o f p d1 … dn`  `find_one(f, p)`
     `c12a p d1 … dn`    `list(aggregate([{$project: p}]))` | Spec | reasons
@@ -39,7 +39,7 @@ def handleC12 (ts : List String) : Option (List String) :=
     | some [d, p] =>
       some (showR showVal (copyOnlyFields d p) ++ ["|"] ++ showSpec (Spec.Proj.project p d) ++ ["|"]
         ++ showSpec ((Spec.Proj.project p d).map Spec.Proj.idLast) ++ ["|"]
-        ++ (Spec.Proj.reasons p d).eraseDups ++ ["|"] ++ showVal (projArgAfter p))
+        ++ (Spec.Proj.reasons p d).eraseDups)
     | _ => some ["?parse"]
   | "c12f" :: r =>
     match parseValsC12 r with
